@@ -148,14 +148,18 @@ func (index *metricIndexDatabase) GenSeriesID(metricID metric.ID, row *metric.St
 	binary.LittleEndian.PutUint64(scratch[:], tagsHash)
 
 	seriesID, isNewSeries, err = index.series.GetOrCreateValue(uint32(metricID), scratch[:], func() (uint32, error) {
-		return index.createSeriesID(metricID), nil
-	})
-	if err == nil && isNewSeries {
+		newSeriesID := index.createSeriesID(metricID)
+		// check the limit before the series gets its entry of the dictionary,
+		// else the refused series is found (without index) by the next row of it
+		// and all refused series of the metric share one id
 		limits := models.GetDatabaseLimits(index.metaDB.Name())
 		seriesLimit := limits.GetSeriesLimit(strutil.ByteSlice2String(row.NameSpace()), strutil.ByteSlice2String(row.Name()))
-		if seriesLimit > 0 && seriesLimit < seriesID {
+		if seriesLimit > 0 && seriesLimit < newSeriesID {
 			return 0, constants.ErrTooManySeries
 		}
+		return newSeriesID, nil
+	})
+	if err == nil && isNewSeries {
 		// if new series do inverted index build
 		index.sequenceCache.Add(metricID, seriesID)
 
